@@ -35,6 +35,8 @@ type TierCfg struct {
 	CrossCheck bool              `json:"cross_check"`
 	Skip       bool              `json:"skip"`
 	GoPolicy   string            `json:"go_policy"`
+	SwitchHook string            `json:"switch_hook"`
+	ModelOnly  bool              `json:"model_only_replay"`
 }
 
 type HarnessCfg struct {
@@ -192,7 +194,7 @@ func main() {
 						solvers[0].Log = f
 					}
 				}
-				ro := sym.RunOpts{AlsoProps: j.h.Also, Prop: *prop, GoPolicy: tc.GoPolicy, Rounds: tc.Rounds, TimeoutMs: tc.TimeoutMs, CrossCheck: tc.CrossCheck}
+				ro := sym.RunOpts{AlsoProps: j.h.Also, Prop: *prop, GoPolicy: tc.GoPolicy, SwitchHook: tc.SwitchHook, Rounds: tc.Rounds, TimeoutMs: tc.TimeoutMs, CrossCheck: tc.CrossCheck}
 				if ro.TimeoutMs == 0 {
 					ro.TimeoutMs = 120000
 				}
